@@ -193,24 +193,56 @@ def rowsOf (s : List Int) : List Int → Int
   | [] => 1
   | a :: as => s.getD a.toNat 0 * rowsOf s as
 
+/-- `reduce(operator.mul, (int(sh) for a, sh in enumerate(shape) if a not in compressed_axes), 1)`: the extent of
+the linearised uncompressed axes; `colsFrom l k rest` = the product over `rest`, whose first extent has axis number `k` -/
+def colsFrom (l : List Int) : Nat → List Int → Int
+  | _, [] => 1
+  | k, sh :: rest => (if l.contains (k : Int) then 1 else sh) * colsFrom l (k + 1) rest
+
+def colsOf (s l : List Int) : Int := colsFrom l 0 s
+
+/-- `np.any(indptr[1:] < indptr[:-1])`: some entry is smaller than its predecessor -/
+def ptrDecreases : List Int → Bool
+  | a :: b :: rest => decide (b < a) || ptrDecreases (b :: rest)
+  | _ => false
+
+/-- `np.min` of a non-empty integer array (never evaluated on an empty one: guarded by `len(self.indices)`) -/
+def listMin : List Int → Int
+  | [] => 0
+  | [a] => a
+  | a :: as => min a (listMin as)
+
+/-- `np.max` of a non-empty integer array -/
+def listMax : List Int → Int
+  | [] => 0
+  | [a] => a
+  | a :: as => max a (listMax as)
+
 /-- the consistency checks of `GCXS.__init__` on `(data, indices, indptr)`: the GENERATED
-`Gen.gcxsCtorChecks` on the lengths, the two end entries of `indptr` and the product of the compressed
-extents.  `data` is 1-dimensional by type.  `indptr[0]` / `indptr[-1]` are evaluated only after
-`len(indptr) = rows + 1 ≥ 1` has passed, so the defaults for an empty `indptr` are never looked at.
-With `compressed_axes = None` and two or more dimensions the product iterates over `None`: TypeError, after
-the checks that come before it (those are the generated checks at `ndim` cut down to at most 1). -/
+`Gen.gcxsCtorChecks` on the lengths, the two end entries of `indptr`, the products of the compressed and of the
+uncompressed extents, whether `indptr` decreases somewhere, and the least and greatest stored index.  `data` and
+`indices` are 1-dimensional by type.  `indptr[0]` / `indptr[-1]` are evaluated only after `len(indptr) = rows + 1 ≥ 1`
+has passed and `np.min` / `np.max` only when there are indices, so the defaults for empty arrays are never looked at.
+With `compressed_axes = None` and two or more dimensions the products iterate over `None`: TypeError, after
+the checks that come before them (the GENERATED `Gen.gcxsCtorChecksHead`). -/
 def gcxsChecks {α} (d : List α) (i p : List Int) (ca : Option (List Int)) (s : List Int) : Except Err Unit :=
   let shapeOk := s.all Gen.gcxsShapeEltOk
   match ca with
-  | some l => Gen.gcxsCtorChecks 1 shapeOk s.length d.length i.length p.length (rowsOf s l) (p.headD 0) (p.getLastD 0)
+  | some l =>
+    Gen.gcxsCtorChecks 1 shapeOk s.length (s.headD 0) d.length i.length p.length (rowsOf s l) (colsOf s l)
+      (p.headD 0) (p.getLastD 0) (ptrDecreases p) 1 (listMin i) (listMax i)
   | none =>
-    match Gen.gcxsCtorChecks 1 shapeOk (min s.length 1) d.length i.length 0 0 0 0 with
-    | .error e => .error e
-    | .ok () => if 2 ≤ s.length then .error .type else .ok ()
+    if 2 ≤ s.length then
+      match Gen.gcxsCtorChecksHead 1 shapeOk s.length d.length i.length with
+      | .error e => .error e
+      | .ok () => .error .type
+    else
+      Gen.gcxsCtorChecks 1 shapeOk s.length (s.headD 0) d.length i.length 0 0 0 0 0 false 1 (listMin i) (listMax i)
 
 /-- `GCXS((data, indices, indptr), shape=…, fill_value=…, compressed_axes=…)`: `check_compressed_axes`, the
-`None` for one dimension, then the consistency checks; the contents of `indices` and the interior of `indptr`
-are not looked at ("their contents are trusted").  The result is always of exact type GCXS. -/
+`None` for one dimension, then the consistency checks (lengths, end pointers, `indptr` non-decreasing, every index
+within the uncompressed extent); the order and multiplicity of the indices within a row are not looked at.
+The result is always of exact type GCXS. -/
 def gcxsCtor {α} (axesOk : List Int → Bool) (d : List α) (i p : List Int) (ca : Option (List Int))
     (s : List Int) (f : α) : Except Err (Arr α) :=
   match checkAxes axesOk s.length ca with
@@ -258,36 +290,46 @@ def strictlyIncreasing : List Int → Bool
   | a :: b :: rest => decide (a < b) && strictlyIncreasing (b :: rest)
   | _ => true
 
-/-- a member set whose lengths and end pointers are consistent but whose index *contents* are not (an index far
-outside the 2×2 array, `indptr` not monotone): the constructor's constant-time checks do not look at them
-(witness of `C14.load_contents_unchecked`; replayed on the real code by harness/c14.py) -/
-def uncheckedWitness : Members Int :=
-  [("data", .vals [5, 7]), ("shape", .ints [2, 2]), ("fill_value", .val 0), ("indices", .ints [9, -4]),
-   ("indptr", .ints [0, 3, 2]), ("compressed_axes", .ints [0])]
+/-- a member set that passes every check of the constructor although row 0 of the 2×3 array lists its column
+indices out of order and one of them twice (`indices[0:3] = [2, 0, 2]`): order and multiplicity within a row are
+the part of the contents that is still trusted (witness of `C14.load_row_order_unchecked`; replayed on the real
+code by harness/c14.py) -/
+def rowOrderWitness : Members Int :=
+  [("data", .vals [5, 7, 8, 9]), ("shape", .ints [2, 3]), ("fill_value", .val 0), ("indices", .ints [2, 0, 2, 1]),
+   ("indptr", .ints [0, 3, 4]), ("compressed_axes", .ints [0])]
 
 /-! ## invariants of the arrays the library builds -/
 
 def Mat.WF (c : Mat) : Prop := c.rows.length = c.nrows ∧ ∀ r ∈ c.rows, r.length = c.ncols
 instance (c : Mat) : Decidable c.WF := by unfold Mat.WF; infer_instance
 
-/-- what the consistency checks of `GCXS.__init__` establish about `(data, indices, indptr)`:
-one value per index (one dimension and up); with two dimensions and up the axes are given, `indptr` has one
-entry per compressed row plus one, starts at 0 and ends at `len(indices)`.  Nothing about the *contents* of
-`indices` or the interior of `indptr`: the constructor does not look at them. -/
+/-- every stored index lies in `[0, n)` -/
+def InRange (i : List Int) (n : Int) : Prop := ∀ x ∈ i, 0 ≤ x ∧ x < n
+instance (i : List Int) (n : Int) : Decidable (InRange i n) := by unfold InRange; infer_instance
+
+/-- what the consistency checks of `GCXS.__init__` establish about `(data, indices, indptr)` — the structural
+invariant of a compressed-row layout except for order and uniqueness of the indices within a row:
+one value per index (one dimension and up); with one dimension every index is a position of the array; with two
+dimensions and up the axes are given, `indptr` has one entry per compressed row plus one, starts at 0, ends at
+`len(indices)`, never decreases, and every index is a position in the linearised uncompressed axes. -/
 def GcxsStruct {α} (s : List Int) (d : List α) (i p : List Int) (ca : Option (List Int)) : Prop :=
   (s ≠ [] → d.length = i.length) ∧
-  (2 ≤ s.length → ∃ l, ca = some l ∧ (p.length : Int) = rowsOf s l + 1 ∧ p.head? = some 0 ∧ p.getLast? = some (i.length : Int))
+  (s.length = 1 → InRange i (s.headD 0)) ∧
+  (2 ≤ s.length → ∃ l, ca = some l ∧ (p.length : Int) = rowsOf s l + 1 ∧ p.head? = some 0
+    ∧ p.getLast? = some (i.length : Int) ∧ p.Pairwise (· ≤ ·) ∧ InRange i (colsOf s l))
 
 instance {α} (s : List Int) (d : List α) (i p : List Int) (ca : Option (List Int)) : Decidable (GcxsStruct s d i p ca) := by
   unfold GcxsStruct
   cases ca with
-  | none => exact decidable_of_iff ((s ≠ [] → d.length = i.length) ∧ ¬ 2 ≤ s.length) (by simp)
+  | none =>
+    exact decidable_of_iff ((s ≠ [] → d.length = i.length) ∧ (s.length = 1 → InRange i (s.headD 0)) ∧ ¬ 2 ≤ s.length) (by simp)
   | some l =>
-    exact decidable_of_iff ((s ≠ [] → d.length = i.length) ∧
-      (2 ≤ s.length → (p.length : Int) = rowsOf s l + 1 ∧ p.head? = some 0 ∧ p.getLast? = some (i.length : Int))) (by simp)
+    exact decidable_of_iff ((s ≠ [] → d.length = i.length) ∧ (s.length = 1 → InRange i (s.headD 0)) ∧
+      (2 ≤ s.length → (p.length : Int) = rowsOf s l + 1 ∧ p.head? = some 0 ∧ p.getLast? = some (i.length : Int)
+        ∧ p.Pairwise (· ≤ ·) ∧ InRange i (colsOf s l))) (by simp)
 
 /-- invariants of a COO / GCXS object as the library constructs it — exactly what the two constructors check
-(nothing about sortedness or the range of the stored indices: persistence does not depend on them) -/
+(nothing about the order of the stored entries: persistence does not depend on it) -/
 def Arr.WF {α} (axesOk : List Int → Bool) : Arr α → Prop
   | .coo s c d _ => (∀ e ∈ s, 0 ≤ e) ∧ c.WF ∧ c.nrows = s.length ∧ d.length = c.ncols
   | .gcxs _ s d i p ca _ =>
